@@ -18,6 +18,7 @@ def run(ctx, crate):
     rule_count_exact(ctx, crate)
     rule_int_digits_untrimmed(ctx, crate)
     rule_bytes_unit_delegated(ctx, crate)
+    rule_duration_fields(ctx, crate)
 
 
 def rule_count_exact(ctx, crate, rule="R-COUNT-EXACT"):
@@ -127,3 +128,145 @@ def _consts_of(x):
     elif isinstance(x, list):
         for v in x:
             yield from _consts_of(v)
+
+
+INT_BITS = {"u8": 8, "u16": 16, "u32": 32, "u64": 64, "u128": 128, "usize": 64, "i8": 7, "i16": 15, "i32": 31, "i64": 63, "i128": 127, "isize": 63}
+FIELDS = {"days": (86400, None), "hours": (3600, 24), "minutes": (60, 60), "seconds": (1, 60)}
+
+
+def _const_secs(e):
+    """Whole seconds of a constant Duration expression (`DAY`, `&DAY`), from the bytes the driver recorded."""
+    import json
+    if e[0] != "const" or not e[2]:
+        return None
+    o = json.loads(e[2])
+    hx = o.get("ref_hex") or o.get("hex")
+    if not hx or "Duration" not in o.get("ty", "") or len(hx) < 16:
+        return None
+    return int.from_bytes(bytes.fromhex(hx[:16]), "little")      # field 0 (secs: u64) is at offset 0 (driver: foff)
+
+
+def _norm(e, depth=0):
+    """(`S`, a, b) for (whole_seconds div a) mod b (b None = no modulus), ('k', n) for a constant, None otherwise."""
+    if depth > 40 or not isinstance(e, tuple):
+        return None
+    if e[0] == "const":
+        return ("k", e[1]) if isinstance(e[1], int) and not isinstance(e[1], bool) else None
+    if e[0] == "call" and e[1] == "std::time::Duration::as_secs" and len(e[2]) == 1:
+        a = e[2][0]
+        if a[0] == "ref" and a[1] == 1 and a[2] in ('["*", {"adt": "format::FormattedDuration", "f": 0, "fty": "std::time::Duration", "n": "0", "v": "FormattedDuration"}]',):
+            return ("S", 1, None)
+        if a[0] == "ref" and a[1] == 1:
+            import json
+            pr = json.loads(a[2])
+            if len(pr) == 2 and pr[0] == "*" and isinstance(pr[1], dict) and pr[1].get("f") == 0 and pr[1].get("adt") == "format::FormattedDuration":
+                return ("S", 1, None)
+        k = _const_secs(a)
+        return ("k", k) if k is not None else None
+    if e[0] == "cast":
+        n = _norm(e[1], depth + 1)
+        bits = INT_BITS.get(e[2])
+        if n is None or bits is None:
+            return None
+        if n[0] == "k":
+            return n if 0 <= n[1] < 2 ** bits else None
+        # the value is below 2^64 (a u64 count of seconds), or below its modulus
+        bound = n[2] if n[2] is not None else 2 ** 64 // n[1] + 1
+        return n if bound <= 2 ** bits else None
+    if e[0] == "bin" and e[1] in ("Div", "Rem"):
+        x, k = _norm(e[2], depth + 1), _norm(e[3], depth + 1)
+        if x is None or k is None or k[0] != "k" or k[1] <= 0:
+            return None
+        k = k[1]
+        if x[0] == "k":
+            return ("k", x[1] // k if e[1] == "Div" else x[1] % k)
+        _, a, m = x
+        if e[1] == "Div":
+            if m is None:
+                return ("S", a * k, None)
+            return ("S", a * k, m // k) if m % k == 0 else None
+        if m is None or m % k == 0:
+            return ("S", a, k)
+        return None
+    if e[0] == "bin" and e[1] in ("Mul", "MulWithOverflow"):
+        x, y = _norm(e[2], depth + 1), _norm(e[3], depth + 1)
+        if x and y and x[0] == "k" and y[0] == "k":
+            return ("k", x[1] * y[1])
+    return None
+
+
+def rule_duration_fields(ctx, crate, rule="R-DURATION-FIELDS"):
+    """"FormattedDuration prints [Dd ]HH:MM:SS of the whole seconds": every number handed to the formatter is, as a value
+    of the whole seconds S = self.0.as_secs(), one of S/86400, (S/3600)%24, (S/60)%60, S%60 (symbolic evaluation of the
+    loop-free body in statement order, div/mod chains normalised to (S div a) mod b; a narrowing cast must be lossless for
+    every u64), on every path they appear in the order [days,] hours, minutes, seconds, and the days are left out only on
+    an edge where days == 0. The literal text between the numbers (`d `, `:`) and the zero padding are not decided."""
+    from ..symval import SymExec
+    cfg = crate.config
+    b = K.find_one(ctx, crate, rule, r"<format::FormattedDuration as std::fmt::Display>::fmt")
+    if not b:
+        return
+    sx = SymExec(b)
+    if not sx.ok:
+        ctx.bad(rule, "fields-established", b.name, K.fn_loc(b), "FormattedDuration::fmt has a loop: the displayed fields cannot be established", cfg)
+        return
+    inv = {v: k for k, v in FIELDS.items()}
+    shown = {}          # bb of the Argument::new_* call -> field name | None
+    for c in b.calls(r"core::fmt::rt::Argument::<'_>::new_\w+"):
+        env = sx.env_at[c.bb]
+        a = sx.op(env, c.args[0])
+        val = sx.place(env, {"l": a[1], "p": __import__("json").loads(a[2])}) if a[0] == "ref" else a
+        n = _norm(val)
+        name = inv.get((n[1], n[2])) if n and n[0] == "S" else None
+        shown[c.bb] = name
+        ctx.check(name is not None, rule, "field-value#%d" % len(shown), b.name, c.loc(),
+                  "the displayed number is the %s field of the whole seconds" % name,
+                  "a displayed number is not one of S/86400, S/3600%%24, S/60%%60, S%%60 of the whole seconds S (value: %s)" % (str(n) if n else "not a div/mod chain of self.0.as_secs(), or a lossy cast"), cfg)
+    ctx.floor(rule, len(shown), 3, cfg, "numbers handed to the formatter in FormattedDuration::fmt")
+    # order on every path, and the guard of the short form
+    err = set()
+    for k in b.calls(K.TRY_BRANCH):
+        te = K.try_edges(b, k)
+        if te:
+            err.add((te[0], te[2]))
+    zero_edges = set()
+    for sb, t in b.switches():
+        env = sx.env_at[sb]
+        v = sx.op(env, t["op"])
+        zt = [tb for vv, tb in t["targets"] if vv == 0]
+        if v[0] == "bin" and v[1] in ("Gt", "Ne", "Eq", "Ge", "Lt", "Le") and zt:
+            x, y = _norm(v[2]), _norm(v[3])
+            if x and y and x[0] == "S" and (x[1], x[2]) == FIELDS["days"] and y[0] == "k":
+                if (v[1], y[1]) in (("Gt", 0), ("Ne", 0), ("Ge", 1)):
+                    zero_edges.add((sb, zt[0]))
+                elif (v[1], y[1]) in (("Eq", 0), ("Lt", 1), ("Le", 0)):
+                    zero_edges.add((sb, t["otherwise"]))
+        else:
+            x = _norm(v)
+            if x and x[0] == "S" and (x[1], x[2]) == FIELDS["days"] and zt:
+                zero_edges.add((sb, zt[0]))
+    paths = []
+
+    def walk(x, seq, zero, seen):
+        if len(paths) > 64:
+            return
+        if x in shown:
+            seq = seq + [shown[x]]
+        t = b.term(x)
+        if t and t["k"] == "return":
+            paths.append((seq, zero))
+            return
+        for s_ in b.succ(x):
+            if (x, s_) in err or s_ in seen:
+                continue
+            walk(s_, seq, zero or (x, s_) in zero_edges, seen | {s_})
+    walk(0, [], False, {0})
+    ctx.floor(rule, len(paths), 1, cfg, "paths of FormattedDuration::fmt")
+    for i, (seq, zero) in enumerate(paths):
+        if None in seq:
+            continue
+        full, short = ["days", "hours", "minutes", "seconds"], ["hours", "minutes", "seconds"]
+        ok = seq == full or (seq == short and zero)
+        ctx.check(ok, rule, "field-order:%s" % ("+".join(x[0] for x in seq) or "none"), b.name, K.fn_loc(b),
+                  "a path prints %s" % seq,
+                  "a path prints %s%s: expected [days,] hours, minutes, seconds with the days left out only when they are zero" % (seq, "" if zero or seq != short else " without testing days == 0"), cfg)
